@@ -175,24 +175,38 @@ enum Pre {
     /// device 0 changed the default folder's password (log rewritten)
     /// while device 1 appended to the old history
     HardPassword,
+    /// three devices with different sync points: device 1 pushed s1,
+    /// device 2 pulled it and pushed s2, device 0 (oldest clock) created
+    /// d1 offline, device 1 created x1 offline; devices 0 and 1 then sync
+    /// concurrently: they are in soft conflicts with different ancestors
+    Staggered,
 }
 
 fn prehistories(tier: Tier) -> Vec<Pre> {
     if let Ok(only) = std::env::var("SCHEDX_ONLY") {
-        let all = vec![Pre::NoDivergence, Pre::OneAhead, Pre::SoftEqual, Pre::SoftUnequal, Pre::SameSecret, Pre::RenameBoth, Pre::Three, Pre::HardCompact, Pre::HardPassword];
+        let all = vec![Pre::NoDivergence, Pre::OneAhead, Pre::SoftEqual, Pre::SoftUnequal, Pre::SameSecret, Pre::RenameBoth, Pre::Three, Pre::HardCompact, Pre::HardPassword, Pre::Staggered];
         return all.into_iter().filter(|p| format!("{:?}", p) == only).collect();
     }
     match tier {
-        Tier::Quick => vec![Pre::OneAhead, Pre::SoftEqual, Pre::SoftUnequal, Pre::SameSecret, Pre::Three, Pre::HardCompact],
-        Tier::Thorough => vec![Pre::NoDivergence, Pre::OneAhead, Pre::SoftEqual, Pre::SoftUnequal, Pre::SameSecret, Pre::RenameBoth, Pre::Three, Pre::HardCompact, Pre::HardPassword],
+        Tier::Quick => vec![Pre::OneAhead, Pre::SoftEqual, Pre::SoftUnequal, Pre::SameSecret, Pre::Three, Pre::HardCompact, Pre::Staggered],
+        Tier::Thorough => vec![Pre::NoDivergence, Pre::OneAhead, Pre::SoftEqual, Pre::SoftUnequal, Pre::SameSecret, Pre::RenameBoth, Pre::Three, Pre::HardCompact, Pre::HardPassword, Pre::Staggered],
     }
 }
 
 fn ndev(p: &Pre) -> usize {
-    if *p == Pre::Three {
+    if *p == Pre::Three || *p == Pre::Staggered {
         3
     } else {
         2
+    }
+}
+
+/// The devices whose sync calls run concurrently.
+fn concurrent(p: &Pre) -> Vec<usize> {
+    if *p == Pre::Staggered {
+        vec![0, 1]
+    } else {
+        (0..ndev(p)).collect()
     }
 }
 
@@ -247,6 +261,7 @@ async fn offline_edits(pre: &Pre, devs: &[Arc<Mutex<LocalAccount>>], t: &Templat
                     a.create_secret(m, s, in_default()).await?;
                 }
             }
+            Pre::Staggered => {}
             Pre::HardPassword => {
                 if d == 0 {
                     a.change_folder_password(&default, sos_core::crypto::AccessKey::Password(secrecy::SecretString::new("c09-new-folder-password-xyz".to_string().into()))).await?;
@@ -295,6 +310,28 @@ async fn recv_msg(
     tokio::time::timeout(std::time::Duration::from_secs(240), grx.recv()).await
 }
 
+/// One complete sync call of the sequential part of a pre-history.
+async fn seq_sync(b: Arc<GBridge>, grx: &mut mpsc::UnboundedReceiver<GateMsg>) -> std::result::Result<(), String> {
+    let fut = async move { b.execute_sync(&SyncOptions::default()).await.map(|_| ()).map_err(|e| e.to_string()) };
+    run_ungated(grx, fut).await
+}
+
+/// Run a future whose requests pass the gates, releasing every gate at once.
+async fn run_ungated<T>(grx: &mut mpsc::UnboundedReceiver<GateMsg>, fut: impl std::future::Future<Output = T>) -> T {
+    tokio::pin!(fut);
+    loop {
+        tokio::select! {
+            biased;
+            m = grx.recv() => {
+                if let Some(GateMsg::AtGate { go, .. }) = m {
+                    let _ = go.send(());
+                }
+            }
+            r = &mut fut => return r,
+        }
+    }
+}
+
 async fn execute(t: &Template, it: &Item, work: &Path) -> Value {
     let mut fails: Vec<Value> = vec![];
     let n = ndev(&it.pre);
@@ -336,8 +373,33 @@ async fn execute(t: &Template, it: &Item, work: &Path) -> Value {
             bridges.push(bridge);
         }
         offline_edits(&it.pre, &accounts, t).await?;
+        if it.pre == Pre::Staggered {
+            let default: VaultId = t.default_folder.parse().unwrap();
+            let in_default = || AccessOptions { folder: Some(default), ..Default::default() };
+            let create = |d: usize, k: usize| gen::secret("note", 0, &format!("c09-stag-d{}k{}", d, k));
+            // sequential part of the pre-history: gates are released at once
+            let edit = |acc: Arc<Mutex<LocalAccount>>, d: usize, k: usize| async move {
+                clock::set_device(d);
+                let (m, s) = create(d, k);
+                let mut a = acc.lock().await;
+                a.create_secret(m, s, in_default()).await.map(|_| ()).map_err(|e| anyhow!("{}", e))
+            };
+            edit(accounts[1].clone(), 1, 0).await?;
+            seq_sync(bridges[1].clone(), &mut grx).await.map_err(|e| anyhow!("pre-history sync d1: {}", e))?;
+            seq_sync(bridges[2].clone(), &mut grx).await.map_err(|e| anyhow!("pre-history sync d2: {}", e))?;
+            edit(accounts[2].clone(), 2, 0).await?;
+            seq_sync(bridges[2].clone(), &mut grx).await.map_err(|e| anyhow!("pre-history sync d2: {}", e))?;
+            clock::set_device(0);
+            edit(accounts[0].clone(), 0, 0).await?;
+            edit(accounts[1].clone(), 1, 1).await?;
+        }
+        let conc = concurrent(&it.pre);
+        let n = conc.len();
         // spawn the concurrent sync calls
         for (d, b) in bridges.iter().enumerate() {
+            if !conc.contains(&d) {
+                continue;
+            }
             let b = b.clone();
             let tx = gtx.clone();
             tokio::spawn(async move {
